@@ -50,6 +50,64 @@ func (ex *Executable) Validate(root *Root) (errs []error) {
 	for _, f := range ex.Fragments {
 		errs = append(errs, f.Validate(root)...)
 	}
+	errs = append(errs, ex.validateFragmentCycles()...)
+	return
+}
+
+// validateFragmentCycles checks that no fragment spreads itself, directly or
+// through other fragments. A cycle would never stop resolving.
+func (ex *Executable) validateFragmentCycles() (errs []error) {
+	const (
+		visiting = 1
+		done     = 2
+	)
+	state := map[*Fragment]int{}
+	var visitSels func(sels []Selection) *FragRef
+	var visit func(f *Fragment) *FragRef
+	visit = func(f *Fragment) *FragRef {
+		state[f] = visiting
+		ref := visitSels(f.Sels)
+		state[f] = done
+		return ref
+	}
+	visitSels = func(sels []Selection) *FragRef {
+		for _, sel := range sels {
+			switch ts := sel.(type) {
+			case *Field:
+				if ref := visitSels(ts.Sels); ref != nil {
+					return ref
+				}
+			case *Inline:
+				if ref := visitSels(ts.Sels); ref != nil {
+					return ref
+				}
+			case *FragRef:
+				switch state[ts.Fragment] {
+				case visiting:
+					return ts
+				case done:
+				default:
+					if ref := visit(ts.Fragment); ref != nil {
+						return ref
+					}
+				}
+			}
+		}
+		return nil
+	}
+	names := make([]string, 0, len(ex.Fragments))
+	for name := range ex.Fragments {
+		names = append(names, name)
+	}
+	sort.Strings(names)
+	for _, name := range names {
+		f := ex.Fragments[name]
+		if state[f] == 0 {
+			if ref := visit(f); ref != nil {
+				errs = append(errs, valError(ref.line, ref.col, "fragment %s is part of a fragment spread cycle", ref.Fragment.Name))
+			}
+		}
+	}
 	return
 }
 
